@@ -390,7 +390,10 @@ def run(tier, seed):
         if not chk.violations:
             raise
         vlib.log(f"anti-vacuity step not completed after violations: {e}")
+    # exhaustive: the TLC model check; the behaviours executed on the real
+    # code are a seeded sample (simulation) plus all/sampled short ones
     chk.cov["exhaustive"] = True
+    chk.cov["conformance"] = "sampled behaviours (see rule)"
     chk.cov["rule"] = (
         "behaviours = TLC simulation of MC_TaExchange_gen (depth 40: child "
         "requests of two children incl. key rolls, proxy requests, two "
